@@ -269,6 +269,8 @@ class SimNode(object):
         self.send_cut = None
         self.sae_frame, self.sae_line, self.sae_reads, self.sae_cut_done = None, 0, 0, False
         self.cut_hits = 0
+        self.child = {'st': 'none'}   # the forked dump writer of this node as the operating system sees it
+        self.child_pid = 0
         self.dead = False         # killed in the middle of the current step (zombie until the step returns)
         self.writes = 0           # primitive storage writes of the current step
         self.kill_at = None
@@ -308,6 +310,8 @@ class Cluster(object):
             from . import crashfs
             crashfs.State.node = lambda: _Ctx.node
             crashfs.State.on_kill = self._on_kill
+            crashfs.State.parent_pid = os.getpid()
+            crashfs.State.gate_dir = self.workdir
             crashfs.install()
         for nid in self.voters:
             self._start(nid, self.voters, voter=True)
@@ -383,6 +387,17 @@ class Cluster(object):
         except Exception:
             pass
         sn.dead = False
+        if sn.child.get('st') != 'none' and sn.child_pid:
+            # the forked dump writer of a process that is gone: the harness ends it before it renames anything
+            try:
+                os.kill(sn.child_pid, 9)
+            except Exception:
+                pass
+            try:
+                os.waitpid(sn.child_pid, 0)
+            except Exception:
+                pass
+        sn.child = {'st': 'none'}
         sn.obj = None
         sn.tr = None
         self.net.tr.pop(nid, None)
@@ -396,6 +411,13 @@ class Cluster(object):
                 self.net.chan[(i, j)] = []
 
     def close(self):
+        for sn in self.nodes.values():
+            if sn.child.get('st') == 'run' and sn.child_pid:
+                try:
+                    os.kill(sn.child_pid, 9)
+                    os.waitpid(sn.child_pid, 0)
+                except Exception:
+                    pass
         for sn in self.nodes.values():
             if sn.obj is not None:
                 try:
@@ -457,6 +479,8 @@ class Cluster(object):
             return act[1] in N and N[act[1]].alive
         if k == 'Assert':
             return True
+        if k in ('ChildDone', 'ChildKill'):
+            return act[1] in N and N[act[1]].alive and N[act[1]].child.get('st') == 'run'
         if k == 'Crash':
             return act[1] in N and N[act[1]].alive and bool(self.cfg.get('journal'))
         if k == 'KillAt':
@@ -539,6 +563,19 @@ class Cluster(object):
             self._stop(act[1])
         elif k == 'Assert':
             pass
+        elif k in ('ChildDone', 'ChildKill'):
+            sn = self.nodes[act[1]]
+            kill_at = int(act[2]) if k == 'ChildKill' else 0
+            with open(os.path.join(self.workdir, 'child_%d.go' % sn.child_pid), 'w') as f:
+                f.write(str(kill_at))
+            try:
+                info = os.waitid(os.P_PID, sn.child_pid, os.WEXITED | os.WNOWAIT)      # wait, but leave it to the library to reap
+                ok = (info.si_code == os.CLD_EXITED and info.si_status == 0)
+            except Exception:
+                ok = False
+            sn.child = {'st': 'ok' if ok else 'fail'}
+            if ok:
+                act = ('ChildDone', act[1])       # told to die at a write it never reached: it finished
         elif k == 'Crash':
             self._stop(act[1], keep_files=True)
         elif k == 'KillAt':
@@ -804,6 +841,7 @@ class Cluster(object):
         except Exception:
             st['names'] = 0
         st['codeVer'] = int(sn.maxver) if self.cfg.get('versions') else 2
+        st['child'] = sn.child
         return st
 
     def project_disk(self, sn):
@@ -993,7 +1031,32 @@ class Cluster(object):
                 'cbs': {k: list(v) for k, v in self.rec.cbs.items()},
                 'nexc': len(self.rec.exc)}
 
+    def _track_children(self):
+        for sn in self.nodes.values():
+            if sn.obj is None or not sn.alive:
+                continue
+            ser = getattr(sn.obj, '_SyncObj__serializer')
+            pid = getattr(ser, '_Serializer__pid')
+            if pid > 0 and sn.child.get('st') == 'none':
+                # the node has just forked its dump writer; the copy it holds is the state right now
+                o = sn.obj
+                g = lambda name: getattr(o, '_SyncObj__' + name)
+                la = g('raftLog')[:]
+                ap = g('raftLastApplied')
+                first = la[0][1]
+                ents = la[ap - 1 - first: ap - 1 - first + 2]
+                sn.child_pid = pid
+                sn.child = {'st': 'run', 'content': {
+                    'size': 0, 'last': self.abs_entry(ents[1]), 'prev': self.abs_entry(ents[0]),
+                    'hist': [[int(p), c, int(v)] for (p, c, v) in getattr(o, 'hist', [])],
+                    'cluster': sorted(n.id for n in (g('otherNodes') | {g('selfNode')}) if n is not None),
+                    'ver': int(g('enabledCodeVersion')),
+                    'ahead': any(e[1] > ents[1][1] and bytes(e[0][:1]) == b'\x02' for e in la)}}
+            elif pid <= 0 and sn.child.get('st') in ('ok', 'fail'):
+                sn.child = {'st': 'none'}       # reaped by checkSerializing
+
     def _record(self, act):
+        self._track_children()
         p = self.project()
         rec = {'a': list(act), 'obs': list(self.rec.step_obs)}
         if self.__dict__.get('_newsnaps'):
@@ -1006,6 +1069,11 @@ class Cluster(object):
         if stn is not None and stn.tr is not None and len(stn.tr.ae_order) > 1:
             rec['ord'] = list(stn.tr.ae_order)
         self._stepping = None
+        if act[0] == 'ChildDone' and self.prev_proj is not None:
+            new = p['nodes'][act[1]].get('snap')
+            for info in self.__dict__.get('_blobs', {}).values():
+                if info.get('ok') and info['sid'] == new:
+                    rec['orc'] = {'sid': new, 'size': info['size']}
         if act[0] == 'Tick' and self.prev_proj is not None:
             # identity and size of the blob a serialization in this tick produced (an input of the specification's step)
             new = p['nodes'][act[1]].get('snap')
